@@ -48,6 +48,8 @@ func (w *World) Exec(st *Step) (viol *Violation) {
 		return w.execSetFail(st)
 	case "failstor":
 		return w.execFailStorable(st)
+	case "probe.removed":
+		return w.execProbeRemoved(st)
 	case "settype":
 		return w.execSetType(st)
 	case "count":
@@ -612,6 +614,7 @@ func (w *World) execDispose(st *Step) *Violation {
 	}
 	w.dropHandles(c)
 	w.Model.unregister(c)
+	w.noteDisposed(c)
 	if err := w.disposeStorable(atree.SlabIDStorable(c.VID.SlabID())); err != nil {
 		return w.viol("dispose", "disposing root #%d failed: %v", c.CID, err)
 	}
@@ -725,5 +728,39 @@ func (w *World) execFailStorable(st *Step) *Violation {
 		return w.viol(class, "container #%d: Count()=%d after a %s that failed because the value had no storable, model %d", c.CID, cnt, what, c.Count())
 	}
 	w.result("failstor")
+	return nil
+}
+
+// execProbeRemoved looks up the root slab id of a container that was disposed of earlier: whatever layer
+// serves the answer (write set, read cache, ledger), the slab is gone and cannot be opened as a container.
+// (An inlined child that was disposed of never had a register; looking its id up must miss as well.)
+func (w *World) execProbeRemoved(st *Step) *Violation {
+	if len(w.Disposed) == 0 {
+		return nil
+	}
+	id := w.Disposed[int(st.Pos%uint64(len(w.Disposed)))]
+	// the id may have been re-used by nothing: slab indexes are never re-issued within a run, except after a
+	// crash with a reverting allocator - then the probe list is stale and is dropped
+	for _, c := range w.Model.Conts {
+		if c.VID == id {
+			return nil
+		}
+	}
+	if _, ok := w.Ledger.Regs[id]; ok && w.Cfg.AllocRevert {
+		// could be a re-issued index after a crash: only judge ids that the current ledger does not hold
+	}
+	slab, found, err := w.Storage.Retrieve(id.SlabID())
+	w.Stats.Inc("probe.removed")
+	if err != nil {
+		return w.viol("probe.error", "Retrieve of the disposed slab %s failed: %v", id, err)
+	}
+	if found || slab != nil {
+		// is it really the old one?  a new large-value slab or child may legitimately have received the index after an allocator revert
+		if w.Cfg.AllocRevert {
+			return nil
+		}
+		return w.viol("probe.resurrected", "slab %s of a container that was disposed of is still served by the storage", id)
+	}
+	w.result("probe gone")
 	return nil
 }
